@@ -1518,3 +1518,81 @@ def ordered_cmps_on_elements(pdb, fn):
             if n.get("fn") and (lt == "T" or lt.startswith("complex::Complex")):
                 out.append(n)
     return out
+
+
+# ---------------------------------------------------------------- L armed: in-range proofs for listed functions
+
+def strengthen(fs, usize_terms=()):
+    """Derive lower bounds for usize terms:  t != c with t >= c gives t >= c+1 (iterated).  Returns extra facts."""
+    lb = {}
+    for t in usize_terms:
+        lb[t] = Fraction(0)
+    for f in fs:
+        if f[0] == "cmp" and f[1] in ("<", "<=") and is_num(f[2]) and not is_num(f[3]):
+            v = f[2][1] + (1 if f[1] == "<" else 0)
+            lb[f[3]] = max(lb.get(f[3], Fraction(0)), v)
+    changed = True
+    while changed:
+        changed = False
+        for f in fs:
+            if f[0] == "cmp" and f[1] == "!=":
+                a, b = f[2], f[3]
+                if is_num(b) and not is_num(a):
+                    a, b = b, a
+                if is_num(a) and b in lb and lb[b] == a[1]:
+                    lb[b] = a[1] + 1
+                    changed = True
+    return [norm_cmp("<=", num(v), t) for t, v in lb.items() if v > 0]
+
+
+def rewrite_eqs(t, eqmap):
+    return subst_term(t, eqmap) if eqmap else t
+
+
+def armed_bounds(rep, pdb, fn, key, extra_facts=(), usize_terms=(), eqmap=None, only_bases=None):
+    """Prove 0 <= idx < len for every Vector/Vec index site of fn (fail = violation).  eqmap rewrites length atoms
+    (struct invariant); extra_facts are the property's domain assumptions."""
+    ctx = Ctx.for_fn(pdb, fn)
+    n = 0
+    seq = {}
+    ties = local_ties(pdb, ctx)
+    em = dict(eqmap or {})
+    for a, b in ties:
+        em.setdefault(a, b)
+    for node in walk(fn["body"]):
+        if node.get("k") != "Index" or in_macro(node):
+            continue
+        reqs = index_requirements(pdb, ctx, node)
+        if len(reqs) != 1:
+            continue
+        v, D, role = reqs[0]
+        bt = ctx.term(node["base"])
+        if only_bases is not None and not only_bases(bt):
+            continue
+        fs = list(facts_x(pdb, ctx, node)) + list(extra_facts)
+        em2 = dict(em)
+        for f in fs:
+            if f[0] == "cmp" and f[1] == "==":
+                a, b = f[2], f[3]
+                if a[0] == "len" and a not in em2:
+                    em2[a] = b
+                elif b[0] == "len" and b not in em2:
+                    em2[b] = a
+        fs2 = [("cmp", f[1], rewrite_eqs(f[2], em2), rewrite_eqs(f[3], em2)) if f[0] == "cmp" else f for f in fs]
+        fs2 += strengthen(fs2, usize_terms)
+        v2, D2 = rewrite_eqs(v, em2), rewrite_eqs(D, em2)
+        lo = prove_ge0(v2, fs2, nonneg_atoms=False) or _nonneg_syntactic(v2)
+        hi = prove_lt(v2, D2, fs2)
+        kk = "%s/%s/%s[%s]" % (key, fn["path"], show(bt, ctx), show(v, ctx))
+        seq[kk] = seq.get(kk, 0) + 1
+        if seq[kk] > 1:
+            kk = "%s#%d" % (kk, seq[kk])
+        n += 1
+        rep.add(kk, "0 <= index < length is entailed by one fact (guards, loop ranges, struct invariant, the property's domain n >= 1)",
+                lo and hi, node, "index %s, length %s: lower=%s upper=%s" % (show(v2, ctx), show(D2, ctx), lo, hi), proof=True)
+    return n
+
+
+def _nonneg_syntactic(t):
+    c, atoms = lin_parts(t)
+    return c >= 0 and all(k >= 0 for k in atoms.values())
